@@ -3,6 +3,7 @@ CONSTANTS Agents = {"a1","a2","a3"}
  NSteps = 1
  AllowCrash = FALSE
  FixStatus = TRUE
+ BindFailUnlinks = FALSE
  ExclusiveBind = TRUE
 INVARIANTS C16_NoOverlap C16_RefusedRecordsNothing C16_Undisturbed
 CHECK_DEADLOCK FALSE
